@@ -52,6 +52,14 @@ class Probe:
                                          _rich_cuwp_lookup=cl)
         self.ectx = RichChkEncodeContext(_rich_str_lookup=sl, _rich_mrgn_lookup=ml, _rich_swnm_lookup=wl,
                                          _rich_cuwp_lookup=cl)
+        # the same context as the MPQ save builds it: with sound metadata for every string that could be a sound path
+        # (durations far above any probed value: an encoder that lets metadata override an explicit argument shows)
+        from richchk.model.mpq.stormlib.wav.stormlib_wav import StormLibWav
+        from richchk.model.richchk.wav.rich_wav_metadata_lookup import RichWavMetadataLookup
+        wm = RichWavMetadataLookup(_metadata_by_wav_path={v.value: StormLibWav(v.value, 4000000000 - k)
+                                                          for k, v in self.strs.items()})
+        self.ectx_w = RichChkEncodeContext(_rich_str_lookup=sl, _rich_mrgn_lookup=ml, _rich_swnm_lookup=wl,
+                                           _rich_cuwp_lookup=cl, _wav_metadata_lookup=wm)
 
     def loc(self, k):
         return self.RichLocation(_left_x1=k, _top_y1=k, _right_x2=k, _bottom_y2=k,
@@ -255,9 +263,9 @@ def run(ck: vlib.Check):
                 for rep in range(reps):
                     nums = {a: gen_value_for(rng, probe, tp, in_range=(rep % 6 != 5)) for a, tp in hints.items()}
 
-                    def f(nums=nums, model_cls=model_cls, hints=hints, tcls=tcls, flds=flds):
+                    def f(nums=nums, model_cls=model_cls, hints=hints, tcls=tcls, flds=flds, rep=rep):
                         rich = model_cls(**{a: probe.construct(hints[a], n) for a, n in nums.items()})
-                        rec = tcls().encode(rich, probe.ectx)
+                        rec = tcls().encode(rich, probe.ectx_w if rep % 2 else probe.ectx)
                         return [(fl, getattr(rec, fl)) for fl in flds if fl != "_flags"]
                     cases.append((kind, key, "enc", nums, vlib.impl_result(f)))
     lines_gen, lines_spec, expect = [], [], []
